@@ -861,7 +861,17 @@ class EbuildProcessor:
         else:
             self._write_sized("start_receiving_env bytes", data)
         os.umask(old_umask)
-        return self.expect("env_received", async_req=async_req, flush=True)
+        if async_req:
+            return self.expect("env_received", async_req=True, flush=True)
+        self.ebd_write.flush()
+        aligned = not self._outstanding_expects or self._consume_async_expects()
+        reply = self.read().rstrip("\n")
+        if reply == "env_receiving_failed":
+            # the daemon gave up on the request and its main loop reports that as
+            # well ("phases failed ..."); consume the report, otherwise it is taken
+            # as the reply to whatever is requested next
+            self.read()
+        return aligned and reply == "env_received"
 
     def set_logfile(self, logfile=""):
         """Set the logfile (location to log to).
